@@ -95,9 +95,15 @@ where
     a
 }
 
-/// A logical array living inside a sentinel-filled parent.
+/// A logical array living inside a sentinel-filled parent. The parent itself is a window
+/// into a larger sentinel-filled buffer with `slack` cells on either side (slack = parent
+/// size + 8), so that a view rebuilt by the code under test with a wrong stride or offset
+/// still lies inside this allocation: such a defect is then observed through the guard
+/// cells and value oracles instead of corrupting the heap of the harness.
 pub struct Host<T> {
-    pub parent: ArrayD<T>,
+    pub buf: Vec<T>,
+    pub slack: usize,
+    pub pshape: Vec<usize>,
     pub shape: Vec<usize>,
     pub layout: Layout,
 }
@@ -114,8 +120,10 @@ impl<T: Clone> Host<T> {
                 parent_extent(shape[k], layout.steps[k], layout.pad)
             })
             .collect();
-        let parent = ArrayD::from_elem(IxDyn(&pshape), sentinel);
-        let mut h = Host { parent, shape: shape.to_vec(), layout: layout.clone() };
+        let psize: usize = pshape.iter().product();
+        let slack = psize + 8;
+        let buf = vec![sentinel; psize + 2 * slack];
+        let mut h = Host { buf, slack, pshape, shape: shape.to_vec(), layout: layout.clone() };
         {
             let mut v = h.view_mut();
             assert_eq!(v.shape(), shape);
@@ -124,26 +132,37 @@ impl<T: Clone> Host<T> {
         }
         h
     }
+    fn psize(&self) -> usize {
+        self.pshape.iter().product()
+    }
+    pub fn parent(&self) -> ArrayViewD<'_, T> {
+        ArrayViewD::from_shape(IxDyn(&self.pshape), &self.buf[self.slack..self.slack + self.psize()]).unwrap()
+    }
     pub fn view(&self) -> ArrayViewD<'_, T> {
-        apply(self.parent.view(), &self.shape, &self.layout)
+        apply(self.parent(), &self.shape, &self.layout)
     }
     pub fn view_mut(&mut self) -> ArrayViewMutD<'_, T> {
-        let (shape, layout) = (self.shape.clone(), self.layout.clone());
-        apply(self.parent.view_mut(), &shape, &layout)
+        let (shape, layout, pshape) = (self.shape.clone(), self.layout.clone(), self.pshape.clone());
+        let (a, b) = (self.slack, self.slack + self.psize());
+        let p = ArrayViewMutD::from_shape(IxDyn(&pshape), &mut self.buf[a..b]).unwrap();
+        apply(p, &shape, &layout)
     }
-    /// Consumes the host and returns an owned array with this (possibly non-standard) layout.
+    /// Consumes the host and returns an owned array with this (possibly non-standard) layout
+    /// (no slack: only for ownership-kind tests).
     pub fn into_owned_layout(self) -> ArrayD<T> {
-        apply(self.parent, &self.shape, &self.layout)
+        let (a, b) = (self.slack, self.slack + self.psize());
+        let parent = ArrayD::from_shape_vec(IxDyn(&self.pshape), self.buf[a..b].to_vec()).unwrap();
+        apply(parent, &self.shape, &self.layout)
     }
-    /// Offsets (in elements, relative to the parent's first element in memory) of the view's cells.
+    /// Offsets (in elements, relative to the start of the buffer) of the view's cells.
     pub fn view_offsets(&self) -> Vec<usize> {
-        let base = self.parent.as_ptr() as usize;
+        let base = self.buf.as_ptr() as usize;
         let sz = std::mem::size_of::<T>().max(1);
         self.view().iter().map(|p| (p as *const T as usize - base) / sz).collect()
     }
-    /// The parent buffer in memory order.
+    /// The whole buffer (slack included) in memory order.
     pub fn memory(&self) -> Vec<T> {
-        self.parent.as_slice_memory_order().unwrap().to_vec()
+        self.buf.clone()
     }
 }
 
@@ -174,6 +193,9 @@ impl<T: Clone> Host1<T> {
     pub fn new(data: &[T], step: isize, off: usize, sentinel: T) -> Host1<T> {
         let n = data.len();
         let span = if n == 0 { 0 } else { (n - 1) * step.unsigned_abs() + 1 };
+        // at least span+2 sentinel cells on either side: a view rebuilt with a wrong stride or
+        // sign still lies inside this allocation
+        let off = off.max(span + 2);
         let parent = Array1::from_elem(2 * off + span, sentinel);
         let mut h = Host1 { parent, n, step, off };
         {
